@@ -78,7 +78,7 @@ def gen(seed: int, tier: str, idx=None):
     if cls == "small":
         rows, cols = rng0.randint(2, 12), rng0.randint(2, 8)
     elif cls == "tile":
-        rows, cols = rng0.choice([255, 256, 257, 300]), rng0.randint(1, 3)
+        rows, cols = rng0.choice([255, 256, 257, 300, 513, 600]), rng0.randint(1, 3)
     else:
         rows, cols = rng0.randint(1, 3), rng0.choice([255, 256, 257])
     g.emit({"op": "new_doc", "rows": rows, "cols": cols, "hr": rng0.choice([0, 1]), "hc": rng0.choice([0, 1])})
